@@ -66,7 +66,8 @@ impl Op {
 
         #[cfg(geodesy_verif)]
         {
-            let count = if self.descriptor.inverted != forward {
+            let ran_fwd = self.descriptor.inverted != forward;
+            let count = if ran_fwd {
                 self.descriptor.fwd.0(self, ctx, operands)
             } else {
                 self.descriptor.inv.0(self, ctx, operands)
@@ -76,6 +77,7 @@ impl Op {
                 vec![
                     ("id", format!("{:?}", self.id)),
                     ("count", count.to_string()),
+                    ("ran", if ran_fwd { "F" } else { "I" }.to_string()),
                 ],
             );
             count
